@@ -154,6 +154,8 @@ impl OpenPartitionIndex {
     ) -> Result<(Mphf<PartitionId>, u64), PartitionIndexError> {
         #[cfg(feature = "verif")]
         seglog::verif::point("flush:start", 1, seglog::verif::fd_of(file));
+        #[cfg(feature = "verif")]
+        let _verif_done = seglog::verif::OnDrop("flush:done", 1, seglog::verif::fd_of(file));
         // Collect all keys from the index
         let keys: Vec<PartitionId> = index.keys().copied().collect();
         let n = keys.len() as u64;
